@@ -103,6 +103,9 @@ func Main(args []string) int {
 			last, line := lastCase(cr.LogTail)
 			p := mon.KeepLog(cr, fmt.Sprintf("%s-crash-c%d-at%d-seed%d.log", *prop, s.idx, last, run.SeedV))
 			sig, detail := classifyCrash(*prop, cr.LogTail)
+			if *prop == "C10" && last >= 0 {
+				line = c10CaseJSON(run.SeedV, s.idx, last) // the full input, regenerated from (VERIF_SEED, child, idx)
+			}
 			if sig != "" {
 				run.Violate(sig, detail+" | input: "+line, map[string]interface{}{"log": p, "child": s.idx, "case": last, "input": line})
 			} else {
@@ -235,6 +238,33 @@ func (t *txnCtx) Commit() error {
 // dummyTxn is the transaction a direct call pretends to run in.
 func dummyTxn(w *world.World, label string) *transaction.Transaction {
 	return w.MakeTxn(world.TxnSpec{From: w.Clients[0], To: world.SCAddresses["miner"], Type: transaction.TxnTypeSmartContract, Func: "verif_probe", Input: map[string]string{"l": label}, Nonce: 1})
+}
+
+// capper keeps a flood of one violation class (e.g. a known finding) from exhausting mon's per-run violation buffer and
+// thereby hiding a different class: per child and signature the first few go to run.Violate, all are counted.
+type capper struct {
+	run *mon.Run
+	n   map[string]int
+}
+
+func newCapper(run *mon.Run) *capper { return &capper{run: run, n: map[string]int{}} }
+
+func (c *capper) Violate(sig, detail string, replay interface{}) {
+	c.n[sig]++
+	c.run.Count("violations:"+sig, 1)
+	if c.n[sig] <= 4 {
+		c.run.Violate(sig, detail, replay)
+		c.run.Checkpoint()
+	}
+}
+
+// nextNonce reads the sender's nonce from the block state (harness plumbing, no oracle uses it).
+func nextNonce(bc *world.BlockCtx, id string) int64 {
+	s, err := chain.GetStateById(bc.State, id)
+	if err != nil || s == nil {
+		return 1
+	}
+	return s.Nonce + 1
 }
 
 func trunc(s string, n int) string {
